@@ -6,6 +6,7 @@ require (
 	github.com/anishathalye/porcupine v1.3.0
 	github.com/rs/zerolog v1.33.0
 	github.com/theparanoids/ysshra v0.0.0
+	golang.org/x/crypto v0.35.0
 )
 
 require (
